@@ -14,7 +14,7 @@ LEVEL = "exploration"
 RULE = ("annotations generated from the grammar in hedmon/gen/annot.py over the XML-oracle vocabulary of each bundled "
         "schema (plain tags in any suffix spelling/case, extensions, values per value class with accepted units, Def / "
         "Def-expand of a generated definition set, Onset/Offset/Inset/Duration/Delay/Event-context groups, nesting <= 4), "
-        "validated with placeholders allowed and disallowed; plus one injected fault of each of 28 kinds with the "
+        "validated with placeholders allowed and disallowed; plus one injected fault of each of 29 kinds with the "
         "expected HED code. A vocabulary sweep uses every plain/value/extensible node at least once. non-trivial = "
         "annotation with >= 2 tags or a mutant; distinct = distinct (schema, definitions, text, placeholder setting)")
 ASSUMPTIONS = ["validity-by-construction encodes my reading of the HED rules through the code table in error_messages.py",
